@@ -111,6 +111,9 @@ Full statement / proved / missing
   `C08_mutator_calls_safe` — the exported methods of value structs that assign their receiver's fields (names computed from
                       family fieldwrites) are called, outside package types, only at the reviewed places (family
                       mutatorcalls; `decide`).
+  `C08_alias_accessors_reviewed` — the exported accessors returning a slice / map field of the receiver as it is are the eight
+                      reviewed ones (Binary.Bytes, DeferredType.Parameters, …): no accessor of Array / Hash / HashEntry
+                      hands out its storage.
 * MUTABLEHASHVALUE AS AN OBJECT (`Model/ImmutMutable.lean`: one object whose storage `Put`/`PutAll` replace, plus the `Hash`
                       methods it inherits by embedding and — since /repo 1d333d3 — its own `Delete` / `DeleteAll` /
                       `Entries` / `Unique`; beyond the builder view of `Model/Coll.lean`):
@@ -595,6 +598,11 @@ example : ¬ SerFactsSafe serCalls (("context.process", "local-through") :: serW
     called only at the reviewed places — none of them in the serializer, the printer, the loader's lookups -/
 theorem C08_mutator_calls_safe : MutatorCallsSafe mutatorNames mutatorCalls := by decide
 
+/-- obligation: the exported accessors that hand out internal storage of a value are the eight reviewed ones (none of a
+    list, a map or a hash entry) -/
+theorem C08_alias_accessors_reviewed : AliasAccessorsReviewed aliasAccessors := by decide
+
+example : ¬ AliasAccessorsReviewed (("Array.Elements", "elements") :: aliasAccessors) := by decide
 example : ¬ MutatorCallsSafe mutatorNames (("serialization", "context.toData", "Put") :: mutatorCalls) := by decide
 example : ¬ MutatorCallsSafe (mutatorNames.filter (· != "PutAll")) mutatorCalls := by decide
 
